@@ -13,7 +13,7 @@
    then confirmed on the real code: errors built through the public API from strings with a
    truncated marker prefix at the end of a line render with an unbalanced marker. *)
 From Errv Require Import Base.Str Redact.Markers Redact.Buffer Model.Err Model.Sem Model.Build Model.Report
-     Proofs.RedactFacts Proofs.RedactWf Proofs.EngineWf.
+     Proofs.RedactFacts Proofs.RedactWf Proofs.EngineWf Proofs.ApiWf.
 
 (* ---- for ARBITRARY BYTES (marker bytes, newlines anywhere, NUL, invalid or
    truncated UTF-8), proofs in Proofs/RedactWf.v ---- *)
@@ -99,6 +99,48 @@ Theorem C06_engine_refuted_short :
             wf_red (fmt_red_short e) = false.
 Proof. exact red_short_false_built. Qed.
 Print Assumptions C06_engine_refuted_short.
+
+(* ---- from the INPUT of the public API (Proofs/ApiWf.v): errors are not arbitrary values, they are built by
+   the constructors (the recipe language of Model/Build.v, network transfers through arbitrary processes
+   included) from strings of arbitrary bytes.  The hypotheses are decidable conditions on the constructor
+   expression: [in_fragment r] = no error argument printed with %+v inside a message format, [strs_ok r] = in
+   every string that becomes part of a MESSAGE a truncated marker prefix (E2 or E2 80) is followed by a byte
+   that is neither a newline, ':' nor E2 (hints, details, links, keys, domains, tags, safe details: no condition),
+   [stacks_ok env] = no marker rune in the captured frames.  Nothing is assumed about stored strings any more. ---- *)
+Theorem C06_api_short : forall env r s e s',
+  in_fragment r = true -> strs_ok r = true -> build env r s = (Some e, s') ->
+  wf_red (fmt_red_short e) = true /\ Forall (fun l => wf_red l = true) (split_on nl (fmt_red_short e)).
+Proof. intros env r s e s' F S E. split; [exact (api_short_rendering_wf env r s e s' F S E)|exact (api_short_lines_wf env r s e s' F S E)]. Qed.
+Print Assumptions C06_api_short.
+
+Theorem C06_api_verbose : forall env r s e s',
+  in_fragment r = true -> strs_ok r = true -> stacks_ok env -> build env r s = (Some e, s') ->
+  wf_red (fmt_red_verbose e) = true /\ Forall (fun l => wf_red l = true) (split_on nl (fmt_red_verbose e)).
+Proof. intros env r s e s' F S K E. split; [exact (api_verbose_rendering_wf env r s e s' F S K E)|exact (api_verbose_lines_wf env r s e s' F S K E)]. Qed.
+Print Assumptions C06_api_verbose.
+
+(* no condition on the strings at all when error arguments come last in their format (and not with %+v) *)
+Theorem C06_api_short_lastarg : forall env r s e s',
+  no_transfer r = true -> errargs_last r = true -> build env r s = (Some e, s') ->
+  wf_red (fmt_red_short e) = true.
+Proof. exact api_short_rendering_wf_lastarg. Qed.
+Print Assumptions C06_api_short_lastarg.
+
+(* the string condition is needed (the recorded finding, now as a statement about constructor expressions) *)
+Theorem C06_api_condition_needed :
+  exists e s',
+    no_transfer bad_short_recipe = true /\ no_plusv bad_short_recipe = true /\
+    build (mkbenv []) bad_short_recipe bs_init = (Some e, s') /\
+    ~ sh_ok e /\ wf_red (fmt_red_short e) = false /\
+    strs_ok bad_short_recipe = false.
+Proof. exact api_short_wf_false. Qed.
+Print Assumptions C06_api_condition_needed.
+
+(* the hypotheses are met by a non-trivial expression: nested Wrapf with a %v error argument that is a barrier
+   with a two-line message, hostile unsafe strings, an arbitrary-byte hint, a secondary error, three hops *)
+Example C06_api_example :
+  in_fragment ex_transfer_recipe = true /\ strs_ok ex_transfer_recipe = true /\ no_transfer ex_transfer_recipe = false.
+Proof. exact ex_transfer_recipe_ok. Qed.
 
 (* hostile contents everywhere else are fine: evaluated instance of the two theorems *)
 Example C06_engine_example :
